@@ -32,6 +32,11 @@ QuickFamilies == <<
   Fam({11, 4}, {8}, {}, {"Mul", "Add", "Pow"}, 1, 2, 3, {"Replace"}, {"id", "arg", "const", "scale", "self", "swap", "bad"}, {11, 12, 4, 5}, 1, 0, 2, {1, 2})
 >>
 
+\* ---- compact vocabulary in which EVERY action of the machine is enabled (run with TLC's per-action coverage: vacuity guard)
+CovFamilies == <<
+  Fam({4}, {}, {9}, {"Mul"}, 1, 2, 2, {"Replace", "Lin", "Deriv", "Factor", "Int"}, {"arg", "swap", "bad"}, {4, 5, 9, 10}, 1, 1, 1, {1})
+>>
+
 \* ---- thorough, exhaustive: the quick vocabularies one step deeper / wider
 ThoroughFamilies == <<
   Fam({1, 2, 4}, {4}, {}, {"Add", "Mul", "Pow", "Dot", "Neg"}, 1, 2, 3, {"Replace"}, AllKinds, {1, 2, 3, 4, 5, 6}, 2, 1, 2, {1, 2, 3}),
